@@ -94,6 +94,8 @@ def build_color_doc(spec, shared=None, shared_page=None, shared_subline=None):
                           schema={c: pl.Utf8 for c in cols})
         if s.get("bad_group"):
             df = df.with_columns(pl.Series(cols[0], ["a", "b", "a"][:n]))
+        if s.get("celltext"):
+            df = df.with_columns(pl.Series(cols[-1], [s["celltext"][r % len(s["celltext"])] for r in range(n)]))
         for j, vals in (s.get("colvals") or {}).items():
             df = df.with_columns(pl.Series(cols[int(j)], [vals[r % len(vals)] if len(vals) < n else vals[r] for r in range(n)]))
         bkw = {}
@@ -274,9 +276,12 @@ POOL = {
     # subline_by together with page_by, new_page left at its default
     "sublpb": dict(path="single", sections=[dict(n=4, m=3, colvals={"0": ["s1", "s1", "s2", "s2"], "1": ["p1", "p2", "p1", "p2"]},
                                                  subline_by=["~D1.1~"], page_by=["~D1.2~"])], comp={}),
+    # cells with LaTeX commands from the start / from the end of the symbol table (text conversion is on by default)
+    "texA": dict(path="single", sections=[dict(n=2, m=2, celltext=["\\alpha + \\beta", "x \\leq \\gamma"])], comp={}),
+    "texB": dict(path="single", sections=[dict(n=2, m=2, celltext=["\\omega \\zeta", "\\Xi \\varpi \\wr \\xi"])], comp={}),
     # group_by on different columns, a group continuing over a page break
-    "grpA": dict(path="single", sections=[dict(n=5, m=2, colvals={"0": ["g1", "g1", "g1", "g1", "g2"]}, group_by=["~D1.1~"])], comp={}, nrow=4),
-    "grpB": dict(path="single", sections=[dict(n=4, m=2, colvals={"1": ["h1", "h1", "h1", "h2"]}, group_by=["~D1.2~"])], comp={}, nrow=3),
+    "grpA": dict(path="single", sections=[dict(n=6, m=2, colvals={"0": ["g1", "g1", "g1", "g1", "g1", "g2"]}, group_by=["~D1.1~"])], comp={}, nrow=4),
+    "grpB": dict(path="single", sections=[dict(n=5, m=2, colvals={"1": ["h1", "h1", "h1", "h1", "h2"]}, group_by=["~D1.2~"])], comp={}, nrow=3),
     "pgfail": dict(path="multi", sections=[dict(n=2, m=2), dict(n=3, m=2, group_by=["~D2.1~"], bad_group=True)], comp={}),
 }
 SHARED_FAMILY = {"share1": "b", "share2": "b", "share3": "b", "sharew2": "w", "sharew3": "w"}
